@@ -48,7 +48,8 @@ class B(A):
 
 generated.register(A, 'A')
 generated.register(B, 'B')
-TYPES = {'int': int, 'str': str, 'A': A, 'B': B, 'intstr': (int, str), 'dict': dict, 'OD': collections.OrderedDict}
+TYPES = {'int': int, 'str': str, 'A': A, 'B': B, 'intstr': (int, str), 'dict': dict, 'OD': collections.OrderedDict,
+         'intdict': (int, dict)}  # (for the values of a dynamic namespace: mappings are gone into, their leaves are what has the type)
 
 
 def v_not1(value, port):
@@ -126,6 +127,8 @@ def _good_value(rng, vt):
         return '@B'
     if vt == 'intstr':
         return rng.choice([2, 't'])
+    if vt == 'intdict':
+        return rng.choice([1, 5, {'k': 2}, {}])
     if vt == 'dict':
         # a mapping that is the VALUE of a leaf port (a plain dict, or a dict subclass)
         return rng.choice([{'@LEAF': True, 'p': 1}, {'@LEAF': True, '@OD': True, 'p': 1, 'q': 's'}, {'@LEAF': True}])
@@ -145,6 +148,8 @@ def _bad_value(rng, vt):
         return rng.choice(['@A', 1])
     if vt == 'intstr':
         return rng.choice([None, '@A'])
+    if vt == 'intdict':
+        return rng.choice(['s', {'k': 's'}, None, {'k': {'m': 't'}}])
     if vt == 'dict':
         return rng.choice([1, 's', None])
     if vt == 'OD':
